@@ -146,6 +146,17 @@ func (r *Report) finish(evidencePath string) int {
 			}
 		} else {
 			rec["solver_output"] = truncStr(o.Raw, 8000)
+			// no model (quantified goal / timeout): try the adapter's own witness on the real code
+			if a := findAdapter(loadAdapters(), o.Func, o.Name); a != nil && a.Witness != nil && os.Getenv("VERIF_NO_REPLAY") == "" {
+				ok, out := runReplay(a, r.Prop, o.Func, o.Name, o.Kind, a.Witness, p)
+				rec["replay_attempted"] = true
+				rec["replay_input_source"] = "adapter witness (the solver gave no model for this obligation)"
+				rec["replay_reproduced"] = ok
+				rec["replay_output"] = truncStr(out, 8000)
+				if ok {
+					suffix = ""
+				}
+			}
 		}
 		writeJSON(p, rec)
 		lines = append(lines, fmt.Sprintf("VIOLATION property=%s replay=%s%s", r.Prop, p, suffix))
